@@ -299,7 +299,7 @@ func (s *c12NSRun) sealedAdmin(S *c12NS) {
 					s.r.Count("sealed_admin_requests", 1)
 					s.checkSealedUntouched(q)
 					if q.ok() {
-						s.violate("C12-sealed-namespace-access", fmt.Sprintf("while %q is sealed, %s %q (header %q) succeeded: %s", S.Path, p.op, q.Path, q.Header, c12Short(q.outcome())), map[string]any{"request": q})
+						s.violate("C12-sealed-namespace-request-served", fmt.Sprintf("while %q is sealed, %s %q (header %q) succeeded: %s", S.Path, p.op, q.Path, q.Header, c12Short(q.outcome())), map[string]any{"request": q})
 					} else {
 						s.r.Count("denied_because_sealed", 1)
 					}
